@@ -64,7 +64,10 @@ class AddonPersistence(Addon, metaclass=abc.ABCMeta):
                 self.log_warning("Disabling persistent state due to an error")
                 self.persistent = False
             raise
-        if self.persistent and self.sync_state:
+        if self.persistent and self.sync_state and self.is_initialized():
+            # (an event may leave the block uninitialized, e.g. a conditional event
+            # resolved to no event; there is no state to be saved then and the state
+            # saved by the previous run must be preserved until it is restored)
             self.save_persistent_state()
         return retval
 
